@@ -72,6 +72,12 @@ theorem C18_writers :
 
 /-! ### non-vacuity: a concrete interleaving of two threads -/
 def toy : Sys Nat Nat Nat Unit := { step := fun _ o op => (o + op, o + op) }
+/-- **Lookups and getters on a keyring do not write it** (generated from `jwks.c`): `jwks_find_bykid`,
+`jwks_item_get`, the counters and every `jwks_item_*` getter contain no list mutation, no allocation or
+free, no buffer write and no store through a pointer — so threads may share a keyring for lookups (the
+usual callback pattern: pick the key by the token's `kid`). -/
+theorem C18_queries_readonly : ∀ q ∈ keyringQueryWrites, q.2 = 0 := by decide
+
 example : (runSched toy () (fun _ => 0) [(0, 1), (1, 10), (0, 2), (1, 20)]).2 = [(0, 1), (1, 10), (0, 3), (1, 30)] := by decide
 example : proj 1 (runSched toy () (fun _ => 0) [(0, 1), (1, 10), (0, 2), (1, 20)]).2 = (runThread toy () 0 [10, 20]).2 := by decide
 
